@@ -37,7 +37,7 @@ def evaluate(name, tier, demo):
             r = run(["/venv/bin/python", "-B", os.path.join(d, "demo.py")], cwd=wt, timeout=600, env=pyenv(wt))
             out["demo_exit_with_change"] = r.returncode
         scratch = f"/tmp/seeded_scratch_{name.replace('/', '_')}"
-        env = dict(os.environ, VERIF_REPO=wt, VERIF_EVIDENCE_DIR=scratch, VERIF_REPLAY_DIR=scratch + "/replay")
+        env = dict(os.environ, VERIF_CONFIRM_CAP=os.environ.get("VERIF_CONFIRM_CAP", "3"), VERIF_REPO=wt, VERIF_EVIDENCE_DIR=scratch, VERIF_REPLAY_DIR=scratch + "/replay")
         for pid in props:
             t0 = time.time()
             r = run([os.path.join(VERIF, "check"), pid, "--tier", tier], cwd=VERIF, env=env, timeout=3600)
